@@ -5,29 +5,29 @@ From Ucfg Require Import Base ParseInt Consts Field Tree PathOps Merge OTree Ops
 (* A value written at an address is read back unchanged from that address: for EVERY path
    (any mixture of names and indices, any depth), every tree, whether intermediate nodes
    existed before or are created by the write. *)
-Theorem c12_read_after_write : forall rp fs pp node ov v node',
+Theorem c12_read_after_write : forall mx rp fs pp node ov v node',
   fs <> [] ->
-  set_path fs pp node ov v = Ok node' ->
+  set_path mx fs pp node ov v = Ok node' ->
   exists p', get_path_go rp fs pp node' = Ok (Some (p', v)).
 Proof. exact set_path_get_path. Qed.
 Print Assumptions c12_read_after_write.
 
 (* Writes affect only the addressed setting, at one node: another name is untouched ... *)
-Theorem c12_frame_other_name : forall n n' pp d a ov v node',
-  n <> n' -> set_field (FName n) pp (VSub d a) ov v = Ok node' ->
+Theorem c12_frame_other_name : forall mx n n' pp d a ov v node',
+  n <> n' -> set_field mx (FName n) pp (VSub d a) ov v = Ok node' ->
   get_field (FName n') pp node' = get_field (FName n') pp (VSub d a).
 Proof. exact set_field_name_other. Qed.
 Print Assumptions c12_frame_other_name.
 
 (* ... the named part and the list part of a node do not interfere ... *)
-Theorem c12_frame_name_vs_index : forall n pp d a ov v node' i,
-  set_field (FName n) pp (VSub d a) ov v = Ok node' ->
+Theorem c12_frame_name_vs_index : forall mx n pp d a ov v node' i,
+  set_field mx (FName n) pp (VSub d a) ov v = Ok node' ->
   get_field (FIdx i) pp node' = get_field (FIdx i) pp (VSub d a).
 Proof. exact set_field_name_keeps_list. Qed.
 Print Assumptions c12_frame_name_vs_index.
 
-Theorem c12_frame_index_vs_name : forall i pp d a ov v node' n,
-  set_field (FIdx i) pp (VSub d a) ov v = Ok node' ->
+Theorem c12_frame_index_vs_name : forall mx i pp d a ov v node' n,
+  set_field mx (FIdx i) pp (VSub d a) ov v = Ok node' ->
   get_field (FName n) pp node' = get_field (FName n) pp (VSub d a).
 Proof. exact set_field_idx_keeps_dict. Qed.
 Print Assumptions c12_frame_index_vs_name.
@@ -72,13 +72,13 @@ Proof. exact (@dict_get_del_other nv). Qed.
 Print Assumptions c12_remove_name_frame.
 
 (* a write below something that is not an object is rejected (nothing is written) *)
-Theorem c12_write_through_primitive_rejected : forall f pp v ov x,
-  is_sub v = false -> exists r p, set_field f pp v ov x = Err r p.
+Theorem c12_write_through_primitive_rejected : forall mx f pp v ov x,
+  is_sub v = false -> exists r p, set_field mx f pp v ov x = Err r p.
 Proof. exact set_field_non_config. Qed.
 Print Assumptions c12_write_through_primitive_rejected.
 
 (* Non-vacuity: a three-level write into an empty tree, read back. *)
 Example c12_ex : exists t,
-  set_path [FName "a"; FIdx 2; FName "b"] "" empty_cfg None (VInt 7) = Ok t /\
+  set_path 1024 [FName "a"; FIdx 2; FName "b"] "" empty_cfg None (VInt 7) = Ok t /\
   get_path "" [FName "a"; FIdx 2; FName "b"] t = Ok (Some ("a.2.b", VInt 7)).
 Proof. eexists. split; vm_compute; reflexivity. Qed.
